@@ -106,6 +106,17 @@ fn decode_host(host: &str) -> Option<Cow<str>> {
     }
 }
 
+/// Whether `suffix` is `domain` itself or a suffix of it that starts at a label boundary,
+/// e.g. `example.com` for `login.example.com` but not for `evilexample.com`.
+fn is_label_aligned_suffix(domain: &str, suffix: &str) -> bool {
+    match domain.strip_suffix(suffix) {
+        // A suffix which itself starts with a dot has an empty first label: it is never a valid
+        // RP ID and is left to the registrable domain check to be reported as such.
+        Some(rest) => rest.is_empty() || rest.ends_with('.') || suffix.starts_with('.'),
+        None => false,
+    }
+}
+
 /// The origin of a WebAuthn request.
 pub enum Origin<'a> {
     /// A Url, meant for a request in the web browser.
@@ -536,7 +547,7 @@ where
         let mut effective_domain = origin.domain().ok_or(WebauthnError::OriginMissingDomain)?;
 
         if let Some(rp_id) = rp_id {
-            if !effective_domain.ends_with(rp_id) {
+            if !is_label_aligned_suffix(effective_domain, rp_id) {
                 return Err(WebauthnError::OriginRpMissmatch);
             }
 
@@ -608,7 +619,7 @@ where
 
         if let Some(rp_id) = rp_id {
             // subset from assert_web_rp_id
-            if !effective_rp_id.ends_with(rp_id) {
+            if !is_label_aligned_suffix(effective_rp_id, rp_id) {
                 return Err(WebauthnError::OriginRpMissmatch);
             }
             effective_rp_id = rp_id;
